@@ -20,7 +20,7 @@ RULE = ("Each shard fixes a pool of 17 documents (generated ones that deliberate
         "ToUnicode maps, multi-page members, a grid of equidistant labels, two Type0 fonts sharing one descendant, Type1 fonts with different built-in encodings, a /Font dictionary mixing indirect and direct fonts, two documents encrypted through the same crypt filter name with different keys, a document whose xref table carries a wrong offset and marks an object free whose body is still in the file, a document whose pages leave the graphics-state stack unbalanced (unclosed q with a non-default colour space, stray Q on the next page), a document whose pages share one zero-length content stream and paint an empty form twice, a document with a page whose /Resources are empty or missing while its content names what the previous page defines; plus repository samples incl. an AES-encrypted one and CJK ones). "
         "Hypothesis draws call histories (model-based op lists) run in one long-lived process: extract_text, "
         "extract_pages to completion, open a page iterator, advance any open iterator (interleaving documents), extract "
-        "a single page by page_numbers, extract_text_to_fp(xml); each with caching on/off and LAParams default or "
+        "a single page by page_numbers, extract_text_to_fp(xml), rendering through one PDFResourceManager(caching=False) shared by the whole history; each with caching on/off and LAParams default or "
         "boxes_flow=None.  Oracle: every value produced must equal the baseline for (document, options, page) computed "
         "in a fresh interpreter (spawned subprocess that has run nothing else): texts exactly, page trees via a "
         "canonical serialisation (class, bbox, text, font, adv, matrix, colours, pts), pageid excluded.  Non-trivial = "
@@ -357,6 +357,7 @@ def run_case(case):
     last_caching = {}
     last_doc = None
     classes = []
+    shared_rsrc = None
 
     def note(d, caching):
         nonlocal flip, last_doc
@@ -396,6 +397,27 @@ def run_case(case):
                 if fp.getvalue() != base[d]["xml:" + la]:
                     return _fail(case, step, classes, "xml output (doc %d %s, la=%s, caching=%r) differs from baseline: %s" % (
                         d, pool[d], la, caching, _diff(fp.getvalue(), base[d]["xml:" + la])))
+            elif k == "shared":
+                # the low-level API with one resource manager that has font caching switched off, kept for the whole
+                # history: with caching off nothing of one document may be remembered for the next
+                _, d, la = op
+                d %= len(pool)
+                note(d, False)
+                from pdfminer.converter import PDFPageAggregator
+                from pdfminer.pdfinterp import PDFPageInterpreter, PDFResourceManager
+                from pdfminer.pdfpage import PDFPage
+
+                if shared_rsrc is None:
+                    shared_rsrc = PDFResourceManager(caching=False)
+                dev = PDFPageAggregator(shared_rsrc, laparams=mk_la(la))
+                ip = PDFPageInterpreter(shared_rsrc, dev)
+                got = []
+                for pg in PDFPage.get_pages(io.BytesIO(docs[d][0]), password=docs[d][1], caching=False):
+                    ip.process_page(pg)
+                    got.append(canon_page(dev.get_result()))
+                if got != base[d]["pages:" + la]:
+                    return _fail(case, step, classes, "pages of doc %d %s rendered through a shared PDFResourceManager("
+                                 "caching=False) differ from baseline: %s" % (d, pool[d], _pagesdiff(got, base[d]["pages:" + la])))
             elif k == "open":
                 _, d, la, caching = op
                 d %= len(pool)
@@ -469,10 +491,11 @@ def _pagesdiff(a, b):
 
 # ---------------------------------------------------------------------------------------------- generators
 def op_strategy():
-    d = st.integers(0, 10)
+    d = st.integers(0, 50)
     la = st.sampled_from(LAS)
     c = st.booleans()
     return st.one_of(
+        st.tuples(st.just("shared"), d, la),
         st.tuples(st.just("text"), d, la, c), st.tuples(st.just("pages"), d, la, c), st.tuples(st.just("xml"), d, la, c),
         st.tuples(st.just("open"), d, la, c), st.tuples(st.just("open"), d, la, c),
         st.tuples(st.just("next"), st.integers(0, 7)), st.tuples(st.just("next"), st.integers(0, 7)),
